@@ -317,6 +317,9 @@ def install_epoll(sim):
   return ES
 
 
+PROC_FD_BASE = 1000
+
+
 class SimSocket(object):
   """
   One end of a simulated TCP connection (or a listener).
@@ -392,6 +395,13 @@ class SimSocket(object):
     if not self.accept_q:
       raise BlockingIOError(errno.EAGAIN, "Resource temporarily unavailable")
     s = self.accept_q.popleft()
+    sim = self.sim
+    if sim.reuse_fds:
+      # the accepting process gets the lowest descriptor it has free --
+      # possibly the number of a connection it closed a moment ago
+      if sim.fds.get(s.fd) is s:
+        del sim.fds[s.fd]
+      s.fd = sim._proc_fd(s)
     return s, s.getpeername()
 
   def connect_ex(self, addr):
@@ -521,6 +531,10 @@ class SimSocket(object):
     if self.connected and not self.shut_wr:
       self.shut_wr = True
       self.sim._deliver_eof(self)
+    if self.sim.reuse_fds and self.fd >= PROC_FD_BASE:
+      if self.sim.fds.get(self.fd) is self:
+        del self.sim.fds[self.fd]
+      self.sim._proc_free.add(self.fd)
     self.sim._poke()
 
   # -- readiness --------------------------------------------------------
@@ -610,6 +624,10 @@ class Sim(object):
     self.ch = Chooser(mix(seed, "online"), calm)
     self.fds = {}
     self._next_fd = 10
+    self.reuse_fds = False      # accepted sockets get the lowest free number
+    self.epoll_hub = False      # attach(): the hub selects through EpollSelect
+    self._proc_free = set()
+    self._proc_next = PROC_FD_BASE
     self.listeners = {}
     self.log = []
     self.stats = _Counter()
@@ -636,6 +654,18 @@ class Sim(object):
   def _new_fd(self, obj):
     fd = self._next_fd
     self._next_fd += 1
+    self.fds[fd] = obj
+    return fd
+
+  def _proc_fd(self, obj):
+    """lowest free descriptor of the process under test (reuse_fds)"""
+    if self._proc_free:
+      fd = min(self._proc_free)
+      self._proc_free.discard(fd)
+      self.stats["fd_reused"] += 1
+    else:
+      fd = self._proc_next
+      self._proc_next += 1
     self.fds[fd] = obj
     return fd
 
@@ -829,7 +859,12 @@ class Sim(object):
   # -- driving the real scheduler --------------------------------------
   def attach(self, sched):
     self.sched = sched
-    sched._selectHub._select_func = self.select
+    if self.epoll_hub:
+      ES = install_epoll(self)
+      sched._selectHub._select_func = ES.EpollSelect().select
+      self.probes["hub_epoll"] += 1
+    else:
+      sched._selectHub._select_func = self.select
     sched._thread = threading.current_thread()
 
   def run_until(self, t):
